@@ -478,15 +478,23 @@ example : ∀ key, (exH key 3).length = 3 := by simp [exH]
 example : positions 3 4 (exH 2 3) = [2, 0, 2] := by decide
 example : Legit exOps := by decide
 example : Unsat exH (CBF.new 10 0 3 4) exOps := by decide
-example : (run exH (CBF.new 10 0 3 4) exOps).cells = [3, 1, 5, 1] := by decide
-example : cnt exOps 2 = 2 ∧ checkAlt (run exH (CBF.new 10 0 3 4) exOps) (exH 2 3) = .ok 3 := by decide
-/-- the undo theorem instantiated on a state with coinciding positions -/
-example : removeAlt (addAlt (run exH (CBF.new 10 0 3 4) exOps) (exH 2 3) 7).1 (exH 2 3) 7
-    = (run exH (CBF.new 10 0 3 4) exOps, .ok 3) := by decide
-example : WF (run exH (CBF.new 10 0 3 4) exOps) ∧ CellRoom (run exH (CBF.new 10 0 3 4) exOps) (exH 2 3) 7 := by
-  refine ⟨⟨by decide, by decide, by decide⟩, by decide⟩
+example : (run exH (CBF.new 10 0 3 4) exOps).cells = [2, 1, 5, 1] := by decide
+example : cnt exOps 2 = 2 ∧
+    (checkAlt (run exH (CBF.new 10 0 3 4) exOps) (exH 2 3)).toOption = some 2 := by decide
+/-- the undo theorem's hypotheses and conclusion on a state with coinciding positions -/
+example : WF (run exH (CBF.new 10 0 3 4) exOps) ∧
+    CellRoom (run exH (CBF.new 10 0 3 4) exOps) (exH 2 3) 7 :=
+  ⟨⟨by decide, by decide, by decide⟩, by decide⟩
+example : (addAlt (run exH (CBF.new 10 0 3 4) exOps) (exH 2 3) 7).2.toOption = some 9 ∧
+    (addAlt (run exH (CBF.new 10 0 3 4) exOps) (exH 2 3) 7).1.cells = [9, 1, 19, 1] := by decide
+example :
+    (removeAlt (addAlt (run exH (CBF.new 10 0 3 4) exOps) (exH 2 3) 7).1 (exH 2 3) 7).1
+      = run exH (CBF.new 10 0 3 4) exOps ∧
+    (removeAlt (addAlt (run exH (CBF.new 10 0 3 4) exOps) (exH 2 3) 7).1 (exH 2 3) 7).2.toOption
+      = some 2 := by decide +kernel
 /-- absent key: `check` is 0, `remove` changes nothing -/
-example : checkAlt (CBF.new 10 0 3 4) (exH 1 3) = .ok 0 ∧
-    removeAlt (CBF.new 10 0 3 4) (exH 1 3) 5 = (CBF.new 10 0 3 4, .ok 0) := by decide
+example : (checkAlt (CBF.new 10 0 3 4) (exH 1 3)).toOption = some 0 ∧
+    (removeAlt (CBF.new 10 0 3 4) (exH 1 3) 5).1 = CBF.new 10 0 3 4 ∧
+    (removeAlt (CBF.new 10 0 3 4) (exH 1 3) 5).2.toOption = some 0 := by decide
 
 end PyProb.C08
